@@ -281,7 +281,15 @@ def gen_model(rng, stream="main", size=None):
             eq = r.choice(["-%s = %s - 1" % (v, w), "1 - %s = %s" % (v, w)])
         elif kind == "elim":
             rhs, val = _affine_rhs(b, maxterms=2, use_params=r.random() < 0.5)
-            eq = r.choice(["%s = %s" % (v, rhs), "%s = %s" % (rhs, v)])
+            form = r.choice(["l", "r", "add-l", "add-r"])
+            if form == "l":
+                eq = "%s = %s" % (v, rhs)
+            elif form == "r":
+                eq = "%s = %s" % (rhs, v)
+            elif form == "add-l":       # top-level sum: e + (…) = 0, so e = -(…)
+                eq, val = "%s + (%s) = 0" % (v, rhs), -val
+            else:
+                eq, val = "(%s) + %s = 0" % (rhs, v), -val
         elif kind == "nonlin":
             w = b.ref()
             if w is None:
